@@ -20,7 +20,7 @@ from ..oracles import sigmodel as sm
 PID = "C06"
 LEVEL = "exploration"
 RULE = ("full product of operation sequences (depth<=2 quick / 3 thorough, 4 for the plain FunctionSignal) over the "
-        "22-operation signal alphabet x all read masks, on 7 kinds of function-backed signals (plain 1- and 2-component, "
+        "22-operation signal alphabet x all read masks, on 9 kinds of function-backed signals (plain 1- and 2-component, a memoising function, a grid-dependent function, "
         "ZHS/AVZ/ARZ Askaryan, FFT/Full thermal noise under OwnedRandom); and of attribute-assignment sequences "
         "(depth<=2/3) x read masks on Specialized/Basic/Uniform/Layered tracers and their paths; distinct_nontrivial = "
         "distinct (kind, op sequence, mask) with at least one read before a mutation")
@@ -37,6 +37,30 @@ FUNCS = sm.make_funcs(DT)
 FUNCS["scalar_only"] = sm.scalar_only_factory(DT)
 FILTERS = sm.make_filters(DT)
 
+
+def _memo_factory():
+    """A function that keeps what it computed: the same array object is handed back for the same grid (a tabulated waveform).
+    Whoever evaluates it must treat the result as read-only."""
+    table = {}
+
+    def memo(ts):
+        ts = np.asarray(ts, dtype=float)
+        key = ts.tobytes()
+        if key not in table:
+            table[key] = np.asarray(FUNCS["tri"](ts), dtype=np.float64)
+        return table[key]
+    return memo
+
+
+def _gridaware(ts):
+    """Depends on the grid it is handed as a whole (like a running integral or an FFT-built pulse): a ramp counted from the
+    first sample of that grid."""
+    ts = np.asarray(ts, dtype=float)
+    return 0.125 * (ts - ts[0]) / DT
+
+
+FUNCS["gridaware"] = _gridaware
+
 SIG_OPS = ["shift+3", "shift-5", "imul2", "idiv4", "filt_delay2", "filt_lowpass", "buf_lead4", "buf_trail3_force",
            "buf_zero_force", "resample17", "times_assign", "with_times_sub", "with_times_super", "add_late", "copy",
            # derive a child, mutate the child, keep going on the parent (no-ops on the parent if nothing is shared)
@@ -47,7 +71,7 @@ SIG_OPS = ["shift+3", "shift-5", "imul2", "idiv4", "filt_delay2", "filt_lowpass"
            "times_stretch", "with_times_stretch",
            # a second component that carries its own, different filter (same padded length as the first)
            "add_late_lowpass"]
-SIG_KINDS = ["plain_early", "plain_two", "zhs", "avz", "arz", "fftnoise", "fullnoise"]
+SIG_KINDS = ["plain_early", "plain_two", "plain_memo", "plain_gridaware", "zhs", "avz", "arz", "fftnoise", "fullnoise"]
 
 
 # ------------------------------------------------------------------------------------------------
@@ -73,6 +97,13 @@ def _make_signal(kind):
         s = FunctionSignal(t, FUNCS["tri"], Signal.Type.voltage) + FunctionSignal(t, FUNCS["scalar_only"])
         return s, sm.M("Function", GRID, sm.VOLT, comps=[["tri", 0.0, 0.0, 0.0, 1.0, []],
                                                          ["scalar_only", 0.0, 0.0, 0.0, 1.0, []]])
+    if kind == "plain_memo":
+        # the model evaluates the pure function "tri"; the library is handed the memoising wrapper
+        return (FunctionSignal(t, _memo_factory(), Signal.Type.voltage),
+                sm.M("Function", GRID, sm.VOLT, comps=[["tri", 0.0, 0.0, 0.0, 1.0, []]]))
+    if kind == "plain_gridaware":
+        return (FunctionSignal(t, FUNCS["gridaware"], Signal.Type.voltage),
+                sm.M("Function", GRID, sm.VOLT, comps=[["gridaware", 0.0, 0.0, 0.0, 1.0, []]]))
     if kind in ("zhs", "avz", "arz"):
         cls = {"zhs": askaryan.ZHSAskaryanSignal, "avz": askaryan.AVZAskaryanSignal,
                "arz": askaryan.ARZAskaryanSignal}[kind]
@@ -340,8 +371,8 @@ def _fs(check, kind, seq, mask, what):
 
 
 # ---- ray tracers and paths -----------------------------------------------------------------------
-RAY_KINDS = ["spec_tracer", "basic_tracer", "uniform_tracer", "layered_tracer", "spec_path", "basic_path", "uniform_path",
-             "layered_path"]
+RAY_KINDS = ["spec_tracer", "basic_tracer", "uniform_tracer", "layered_tracer", "layered_grad_tracer", "spec_path", "basic_path",
+             "uniform_path", "layered_path"]
 
 P_A = (0.0, 0.0, -250.0)
 P_B = (400.0, 100.0, -100.0)
@@ -363,6 +394,9 @@ def _make_ray(kind):
         ice = LayeredIce([UniformIce(1.5, valid_range=(-200, 0), index_above=1.0),
                           UniformIce(1.7, valid_range=(-900, -200), index_below=None)])
         return LayeredRayTracer(P_A, P_B, ice)
+    if kind == "layered_grad_tracer":
+        from pyrex.custom.layered_ice import LayeredRayTracer
+        return LayeredRayTracer(P_A, P_B, _split_ice("antarctic"))
     if kind == "spec_path":
         return rt.SpecializedRayTracer(P_A, P_B, AntarcticIce()).solutions[1]
     if kind == "basic_path":
@@ -374,6 +408,14 @@ def _make_ray(kind):
     if kind == "layered_path":
         return _layered_tracer().solutions[0]
     raise ValueError(kind)
+
+
+def _split_ice(which):
+    """a gradient-index medium split into two layers at -150 m (same boundary for both media)"""
+    from pyrex.ice_model import AntarcticIce, GreenlandIce
+    from pyrex.custom.layered_ice import LayeredIce
+    cls = AntarcticIce if which == "antarctic" else GreenlandIce
+    return LayeredIce([cls(valid_range=(-150, 0)), cls(valid_range=(-2850, -150), index_above=None)])
 
 
 def _layered_tracer(a=P_A, b=P_B):
@@ -395,6 +437,8 @@ def _ray_ops(kind):
             ops += ["max_reflections=1", "max_reflections=2"]
         if kind == "uniform_tracer":
             ops += ["ice=uniform2"]
+        if kind == "layered_grad_tracer":
+            ops = ["from=C", "to=D", "ice=greenland_split", "ice=antarctic_split"]
     elif kind == "layered_path":
         ops = ["from=C", "to=D", "to+=dx", "paths=other", "paths=elsewhere"]
     else:
@@ -417,6 +461,10 @@ def _apply_ray(obj, op):
         obj.to_point += np.array([37.0, -11.0, -3.0])      # in-place change, same array object assigned back
     elif op == "ice=greenland":
         obj.ice = GreenlandIce()
+    elif op == "ice=greenland_split":
+        obj.ice = _split_ice("greenland")
+    elif op == "ice=antarctic_split":
+        obj.ice = _split_ice("antarctic")
     elif op == "ice=uniform2":
         obj.ice = UniformIce(1.4, valid_range=(-900, 0), index_above=1.0, index_below=1.2)
     elif op == "dz=0.5":
